@@ -16,9 +16,15 @@ impl_syscall!(Accept4SyscallFacade, IoUringAccept4Syscall, NioAccept4Syscall, Ra
     accept4(fd: c_int, address: *mut sockaddr, address_len: *mut socklen_t, flg: c_int) -> c_int
 );
 
-impl_facade!(Accept4SyscallFacade, Accept4Syscall,
+impl_facade!(Accept4StateFacade, Accept4Syscall,
     accept4(fd: c_int, address: *mut sockaddr, address_len: *mut socklen_t, flg: c_int) -> c_int
 );
+
+impl_new_fd!(NewAccept4Syscall, Accept4Syscall,
+    accept4(fd: c_int, address: *mut sockaddr, address_len: *mut socklen_t, flg: c_int) -> c_int
+);
+
+type Accept4SyscallFacade<I> = NewAccept4Syscall<Accept4StateFacade<I>>;
 
 impl_io_uring!(IoUringAccept4Syscall, Accept4Syscall,
     accept4(fd: c_int, address: *mut sockaddr, address_len: *mut socklen_t, flg: c_int) -> c_int
